@@ -213,7 +213,7 @@ fn gen_agg(rng: &mut Rng) -> AggK {
 }
 
 pub fn gen_typed_query(rng: &mut Rng) -> TypedQuery {
-    let group: Vec<usize> = match rng.below(6) { 0 => vec![], 1 | 2 => vec![K], 3 => vec![W], 4 => vec![K, W], _ => vec![*rng.pick(&[B, TS, S, IV])] };
+    let group: Vec<usize> = match rng.below(6) { 0 => vec![], 1 | 2 => vec![K], 3 => vec![W], 4 => vec![K, W], _ => vec![*rng.pick(&[B, TS, S, IV, R, R])] };
     let mut items = Vec::new();
     for _ in 0..rng.below(4) + 1 {
         if !group.is_empty() && rng.chance(1, 4) {
